@@ -1272,6 +1272,11 @@ class Bits:
         assert start <= end
         assert bitstring.options.lsb0
 
+        if bytealigned:
+            # The alignment has to be judged on the LSB0 position, which _findall_lsb0 does.
+            for lsb0_pos in self._findall_lsb0(bs, start, end, 1, True):
+                return (lsb0_pos,)
+            return ()
         new_slice = bitstring.bitstore.offset_slice_indices_lsb0(slice(start, end, None), len(self))
         msb0_start, msb0_end = self._validate_slice(new_slice.start, new_slice.stop)
         p = self._rfind_msb0(bs, msb0_start, msb0_end, bytealigned)
@@ -1394,6 +1399,13 @@ class Bits:
         new_slice = bitstring.bitstore.offset_slice_indices_lsb0(slice(start, end, None), len(self))
         msb0_start, msb0_end = self._validate_slice(new_slice.start, new_slice.stop)
 
+        if bytealigned:
+            # The alignment has to be judged on the LSB0 position, not the MSB0 one.
+            for msb0_pos in self._findall_msb0(bs, msb0_start, msb0_end, None, False):
+                lsb0_pos = len(self) - msb0_pos - len(bs)
+                if lsb0_pos % 8 == 0:
+                    return (lsb0_pos,)
+            return ()
         p = self._find_msb0(bs, msb0_start, msb0_end, bytealigned)
         if p:
             return (len(self) - p[0] - len(bs),)
